@@ -52,7 +52,7 @@ pub fn prop() -> Prop {
          section 6 + apollo's documented choices). Non-trivial: at least one field error at a Non-Null position or \
          inside a list; distinct by operation + variables + schema + world.",
     )
-    .random("execute", check, |t| if t == Tier::Quick { 120_000 } else { 3_000_000 }, |t| if t == Tier::Quick { 900 } else { 1500 })
+    .random("execute", check, |t| dev_scale(if t == Tier::Quick { 120_000 } else { 3_000_000 }), |t| if t == Tier::Quick { 900 } else { 1500 })
     .text(check_text)
     .assumptions(&[
         "errors are compared by path; the list is checked against the set of field errors of an uncancelled reference execution (subset, no duplicates, every error-made null explained) because the specification allows cancelling siblings after a propagating error and fixes no order of `errors`",
@@ -60,6 +60,14 @@ pub fn prop() -> Prop {
         "not generated (unspecified): null or absent values for `if:` of @skip/@include; ResolvedValue::SkipForPartialExecution; integers above i64::MAX for ID; variables inside literals for custom scalars; subscriptions",
         "variables are fault-free (C28 covers coercion failures); cases whose variables the reference leaves unspecified, or that apollo's validation rejects, are skipped and counted",
     ])
+}
+
+/// Development aid: `VERIF_DEV_SCALE=<percent>` scales the number of cases (unset = 100).
+pub fn dev_scale(n: u64) -> u64 {
+    match std::env::var("VERIF_DEV_SCALE").ok().and_then(|s| s.parse::<u64>().ok()) {
+        Some(p) => (n * p / 100).max(1),
+        None => n,
+    }
 }
 
 pub struct Built {
@@ -556,4 +564,60 @@ pub fn evaluate(b: &Built, ctx: &mut Ctx) -> Outcome {
     debug_assert!(rx::nulls_at_non_null(&b.full.data).is_empty());
     let fails = compare("C26", b, &obs, ctx);
     ctx.pick_failure(fails)
+}
+
+#[cfg(test)]
+mod tests {
+    use super::*;
+
+    /// Development aid: `cargo test --release c26::tests::explore -- --ignored --nocapture`
+    #[test]
+    #[ignore]
+    fn explore() {
+        let n: u64 = std::env::var("N").ok().and_then(|s| s.parse().ok()).unwrap_or(3000);
+        let from: u64 = std::env::var("FROM").ok().and_then(|s| s.parse().ok()).unwrap_or(0);
+        let mut slow = 0;
+        let mut fails: std::collections::BTreeMap<String, (u64, String)> = Default::default();
+        let mut skips: std::collections::BTreeMap<String, u64> = Default::default();
+        let t0 = std::time::Instant::now();
+        for i in from..from + n {
+            let bytes = crate::runner::gen_case(20260921, "C26", 0, i, 900);
+            let t = std::time::Instant::now();
+            let mut ctx = Ctx::new(Tier::Quick, false);
+            let r = check(&bytes, &mut ctx);
+            let el = t.elapsed();
+            if el.as_millis() > 300 && slow < 5 {
+                slow += 1;
+                println!("SLOW {} {:?} sample len {}", i, el, ctx.sample.as_ref().map(|s| s.len()).unwrap_or(0));
+                if let Some(s) = &ctx.sample {
+                    println!("{}", crate::runner::truncate(s, 3000));
+                }
+            }
+            if let Some(w) = ctx.skipped {
+                *skips.entry(w.to_string()).or_insert(0) += 1;
+                if w.starts_with("variables-rejected") && skips[w] < 4 {
+                    let (cb, _) = exec_ops::split_world_bytes(&bytes);
+                    let case = exec_ops::case(&cb, &exec_ops::Opts::default());
+                    println!("REJECTED VARS: {:?}\n{}", Coercer::new(&case.schema).coerce_variable_values(&case.var_defs, &case.variables), case.render());
+                }
+                if w.starts_with("apollo-validation") && skips[w] < 6 {
+                    let mut ctx2 = Ctx::new(Tier::Quick, true);
+                    let _ = check(&bytes, &mut ctx2);
+                    println!("{}", ctx2.sample.unwrap_or_default());
+                }
+            }
+            if let Outcome::Fail { sig, detail } = r {
+                let e = fails.entry(sig).or_insert((0, String::new()));
+                e.0 += 1;
+                if e.1.is_empty() {
+                    e.1 = format!("#{} {}\n{}", i, detail, ctx.sample.unwrap_or_default());
+                }
+            }
+        }
+        println!("elapsed {:?} for {} cases", t0.elapsed(), n);
+        println!("skips {:?}", skips);
+        for (k, (n, d)) in &fails {
+            println!("FAIL {} x{}\n{}\n", k, n, crate::runner::truncate(d, 2500));
+        }
+    }
 }
